@@ -101,7 +101,7 @@ def bad_value(rng):
     if k == 4:
         # (JSON escapes non-ASCII and control characters: those values are representable;
         #  what J cannot hold is a non-container or a non-serialisable object)
-        return rng.choice([5, "text", 1.5, True]), "json"
+        return rng.choice([5, "text", 1.5, True, [float("nan")], {"a": [float("inf")]}, [1, float("-inf")]]), "json"
     if k == 5:
         return rng.choice(["ab", "", " ", "\t"]), "char"
     if k == 6:
